@@ -29,6 +29,7 @@ Guard(s, i) ==
     [] op.k = "setf" -> Present(s, op.l)
     [] op.k = "addc" -> Present(s, op.l)
     [] op.k = "ren"  -> op.id \in NamesOf(s)
+    [] op.k = "addcl" -> op.id \in NamesOf(s)
     [] op.k \in {"settag", "deltag"} -> op.id \in NamesOf(s)
     [] op.k = "flush" -> s.queue # <<>>
     [] op.k = "unused" -> TRUE
